@@ -221,10 +221,33 @@ def split_oracle_in_runner(runner_run):
     return runner_run
 
 
+def _add(key, text="t"):
+    return dict(op="card.add", folded=False, items=[[key, text]])
+
+
+_NEW, _RENDER, _TOC = dict(op="card.new"), dict(op="card.render"), dict(op="card.toc")
+# an ancestor is deleted and a path below it is used again: everything on the way has to be created afresh
+SCENARIOS = [
+    [_NEW, _add("Data/Splits/Train"), dict(op="card.delete", key="Data"), _add("Data/Splits/Test"), dict(op="card.select", key="Data/Splits/Test"),
+     dict(op="card.select", key="Data"), _RENDER, _TOC],
+    [_NEW, _add("Data/Splits/Train"), dict(op="card.delete_list", names=["Data"]), _add("Data/Splits/Test"),
+     dict(op="card.select_chain", keys=["Data", "Splits", "Test"]), _TOC],
+    [_NEW, _add("P/Q/R/S"), dict(op="card.delete", key="P/Q"), dict(op="card.add_table", description=None, folded=False, as_df=False,
+                                                                    items=[["P/Q/R/T", [["a", [1]]]]]), dict(op="card.select", key="P/Q/R/T"), _RENDER],
+    [_NEW, _add("M/N/O"), _add("M/N/P"), dict(op="card.delete", key="M"), _add("M/N/P"), dict(op="card.select", key="M/N/P"), dict(op="card.select", key="M/N/O")],
+    # a literal-slash title next to the same spelling used as a nested address
+    [_NEW, _add("Metrics\\/F1", "literal"), _add("Metrics/F1", "nested"), dict(op="card.select", key="Metrics/F1"), dict(op="card.select", key="Metrics\\/F1"),
+     dict(op="card.select_chain", keys=["Metrics", "F1"])],
+    [_NEW, _add("Data\\/Splits", "literal"), dict(op="card.select", key="Data/Splits")],
+    [_NEW, _add("Eval/ROC\\/AUC", "literal"), _add("Eval/ROC/AUC", "nested"), dict(op="card.select_chain", keys=["Eval", "ROC/AUC"]),
+     dict(op="card.select_chain", keys=["Eval", "ROC\\/AUC"])],
+]
+
+
 def run(ctx):
     cardcheck.run_card_property(
         ctx, area="card.tree", required=REQUIRED, weights=WEIGHTS, view=view, oracle=oracle,
-        quick=(300, 30), thorough=(8000, 60), extra_streams={"split_stream": split_stream})
+        quick=(300, 30), thorough=(8000, 60), extra_streams={"split_stream": split_stream}, scenarios=SCENARIOS)
 
 
 def replay(rep):
